@@ -109,7 +109,9 @@ func holders() []shaped {
 	one := 1
 	str := "13800138000"
 	tm := time.Now()
-	add := func(n string, h Holder) { out = append(out, shaped{"Holder{" + n + "}", h}, shaped{"&Holder{" + n + "}", &h}) }
+	add := func(n string, h Holder) {
+		out = append(out, shaped{"Holder{" + n + "}", h}, shaped{"&Holder{" + n + "}", &h})
+	}
 	add("zero", Holder{})
 	add("P", Holder{P: l})
 	add("P-bad", Holder{P: bad})
@@ -157,17 +159,26 @@ type NSlice []Leaf
 type NStrs []NStr
 
 type NamedFields struct {
-	S  NStr            `valid:"required,to=1~3,in=(a1/b),prefix=a,unique"`
-	I  NInt            `valid:"to=1~3,in=(1/2),int"`
-	F  NF              `valid:"float,le=1"`
-	B  NB              `valid:"required,in=(true)"`
-	M  NKMap           `valid:"required,ge=3"`
-	L  NStrs           `valid:"unique,ints,le=1"`
-	LS NSlice          `valid:"required"`
-	MS map[NStr]*Leaf  `valid:"exist"`
-	MN map[NInt]Leaf   `valid:"exist"`
-	E1 NStr            `valid:"either=1,botheq=2"`
-	E2 NStr            `valid:"either=1,botheq=2"`
+	S  NStr           `valid:"required,to=1~3,in=(a1/b),prefix=a,unique"`
+	I  NInt           `valid:"to=1~3,in=(1/2),int"`
+	F  NF             `valid:"float,le=1"`
+	B  NB             `valid:"required,in=(true)"`
+	M  NKMap          `valid:"required,ge=3"`
+	L  NStrs          `valid:"unique,ints,le=1"`
+	LS NSlice         `valid:"required"`
+	MS map[NStr]*Leaf `valid:"exist"`
+	MN map[NInt]Leaf  `valid:"exist"`
+	E1 NStr           `valid:"either=1,botheq=2"`
+	E2 NStr           `valid:"either=1,botheq=2"`
+}
+
+// DynHolder: rules that compare / hash / render elements, on fields whose elements are only dynamically typed.
+type DynHolder struct {
+	L []interface{}  `valid:"unique,required,ints,to=1~3"`
+	A [2]interface{} `valid:"unique,exist"`
+	X []XI           `valid:"unique,required"`
+	I interface{}    `valid:"unique,in=(1/2),eq=1,either=1,botheq=2"`
+	J interface{}    `valid:"either=1,botheq=2"`
 }
 
 func namedShapes() []shaped {
@@ -180,6 +191,14 @@ func namedShapes() []shaped {
 		{"NStr", NStr("a1")}, {"NStr url", ns}, {"&NStr", &ns}, {"NInt", NInt(5)}, {"NF", NF(1.5)}, {"NB", NB(true)}, {"NSlice", NSlice{l, {}}}, {"NStrs", NStrs{"a", "a"}}, {"[]NInt", []NInt{1, 1}},
 		{"NamedFields{}", NamedFields{}}, {"&NamedFields", &NamedFields{S: "zzzz", I: 9, F: 2.5, B: true, M: NKMap{"a": 1}, L: NStrs{"x", "x"}, LS: NSlice{l}, MS: map[NStr]*Leaf{"a": nil, "b": &l}, MN: map[NInt]Leaf{1: l}, E1: "a"}},
 		{"[]NamedFields", []NamedFields{{}, {S: "a1"}}}, {"map[NStr]NamedFields", map[NStr]NamedFields{"a": {}}},
+		// dynamic contents whose static type says "comparable" but whose value is not hashable (what encoding/json
+		// produces for nested arrays and objects)
+		{"[]interface{} of slices", []interface{}{[]int{1}, []int{1}}}, {"[]interface{} of maps", []interface{}{map[string]interface{}{"a": 1}, map[string]interface{}{"a": 1}}},
+		{"[]interface{} mixed", []interface{}{"a", []interface{}{"a"}, map[string]int{}, nil, 1.5, func() {}}},
+		{"[]XI", []XI{{X: []int{1}}, {X: map[string]int{}}, {X: nil}}}, {"[2]interface{}", [2]interface{}{[]byte("a"), []byte("a")}},
+		{"map[string][]interface{}", map[string][]interface{}{"k": {[]int{1}, []int{1}}, "j": {map[string]int{}}}},
+		{"map[string]interface{} of slices", map[string]interface{}{"k": []interface{}{[]int{1}}, "j": []int{1, 1}, "W": [][]int{{1}, {1}}}},
+		{"DynHolder", &DynHolder{L: []interface{}{[]int{1}, []int{1}}, A: [2]interface{}{map[string]int{}, map[string]int{}}, X: []XI{{X: []int{1}}}, I: []int{1}}},
 	}
 }
 
@@ -291,9 +310,13 @@ func ruleCallers() []entry2 {
 		{"Struct/int", func(r string) error { return valid.Struct(BoxI{7}, valid.RM{"F": r}) }},
 		{"Struct/[]int", func(r string) error { return valid.Struct(&BoxS{[]int{1}}, valid.RM{"F": r}) }},
 		{"Struct/two-fields", func(r string) error { return valid.Struct(&Leaf{"a", 1}, valid.RM{"V": r, "W": r}) }},
-		{"Map/string", func(r string) error { return valid.Map(map[string]string{"k": "a1", "j": ""}, valid.RM{"k": r, "j": r}) }},
+		{"Map/string", func(r string) error {
+			return valid.Map(map[string]string{"k": "a1", "j": ""}, valid.RM{"k": r, "j": r})
+		}},
 		{"Map/int", func(r string) error { return valid.Map(map[string]int{"k": 5}, valid.RM{"k": r}) }},
-		{"Map/iface", func(r string) error { return valid.Map(map[string]interface{}{"k": "a1", "j": nil}, valid.RM{"k": r, "j": r}) }},
+		{"Map/iface", func(r string) error {
+			return valid.Map(map[string]interface{}{"k": "a1", "j": nil}, valid.RM{"k": r, "j": r})
+		}},
 		{"Url", func(r string) error { return valid.Url("http://h/p?k=a1&j=&i", valid.RM{"k": r, "j": r, "i": r}) }},
 		{"Parse+Split", func(r string) error {
 			for _, p := range valid.ValidNamesSplit(r) {
